@@ -1,2 +1,57 @@
-// Package c06: implementation-side ops, generators and oracles for property C06.
 package c06
+
+import (
+	"fmt"
+	"strings"
+	"sync"
+
+	"verifharness/internal/core"
+)
+
+// Line protocol (implementation and Lean model answer the same line):
+//
+//	C06.v1 <cache> <op>…     whole sequence on a fresh v1 keystore (cache: -1 off, 0 unbounded, n LRU size)
+//	C06.v2m <op>…            … on a fresh v2 keystore, in-memory back end
+//	C06.v2d <op>…            … on a fresh v2 keystore, directory back end (the model does not distinguish)
+//
+// Answer: the observations of all ops joined by '|'.
+
+var (
+	lastMu       sync.Mutex
+	lastFindings []Finding
+)
+
+// takeFindings returns the oracle findings of the most recent sequence op.
+func takeFindings() []Finding {
+	lastMu.Lock()
+	defer lastMu.Unlock()
+	f := lastFindings
+	lastFindings = nil
+	return f
+}
+
+func runOp(f Format, cache int, toks []string) string {
+	obs, fs := RunSeq(f, cache, toks)
+	lastMu.Lock()
+	lastFindings = fs
+	lastMu.Unlock()
+	return strings.Join(obs, "|")
+}
+
+func init() {
+	core.Register("C06.v1", func(a []string) string { return runOp(V1, core.Atoi(a[0]), a[1:]) })
+	core.Register("C06.v2m", func(a []string) string { return runOp(V2Mem, -1, a) })
+	core.Register("C06.v2d", func(a []string) string { return runOp(V2Dir, -1, a) })
+	core.RegisterProp("C06", run)
+}
+
+func lineFor(f Format, cache int, toks []string) string {
+	switch f {
+	case V1:
+		return fmt.Sprintf("C06.v1 %d %s", cache, strings.Join(toks, " "))
+	case V2Mem:
+		return "C06.v2m " + strings.Join(toks, " ")
+	default:
+		return "C06.v2d " + strings.Join(toks, " ")
+	}
+}
